@@ -107,12 +107,14 @@ class SymEnv:
         self.input_vars: list[T.Term] = []
 
     def _pick(self, spec: LeafSpec) -> float:
+        # generic (non-dyadic) values: accidental exact cancellations would make the concrete run
+        # disagree with the symbolic one on 0 vs. rounding noise
         if spec.unit_interval:
-            return self.rng.choice([1, 2, 3, 5, 6, 7]) / 8.0
+            return round(self.rng.uniform(0.1, 0.9), 6)
         if spec.positive:
-            return self.rng.choice([1, 2, 3, 4, 5, 6, 7, 9, 10, 12]) / 8.0
-        v = self.rng.choice([-12, -10, -7, -6, -5, -3, -2, -1, 1, 2, 3, 5, 6, 7, 9, 11, 12]) / 8.0
-        return v
+            return round(self.rng.uniform(0.2, 1.6), 6)
+        v = round(self.rng.uniform(0.15, 1.5), 6)
+        return v if self.rng.random() < 0.6 else -v
 
     def new_param(self, p: SP.TensorParameter, spec: LeafSpec | None = None, name: str | None = None):
         if p in self.penv.leaves:
@@ -154,7 +156,7 @@ class SymEnv:
                 # snap to exact dyadic values summing to one
                 n = len(lane)
                 vals_ = [ctx.env[v.re] / tot for v in lane]
-                vals_ = [round(x * 64) / 64 for x in vals_]
+                vals_ = [round(x, 6) for x in vals_]
                 vals_[-1] = 1.0 - sum(vals_[:-1])
                 for v, x in zip(lane, vals_):
                     nm = v.re.data
@@ -177,7 +179,7 @@ class SymEnv:
     def new_real_input(self, name: str, value: float | None = None) -> Val:
         val = self.overrides.get(name)
         if val is None:
-            val = self.rng.choice([-9, -6, -4, -3, -1, 1, 2, 3, 5, 7, 10]) / 8.0 if value is None else value
+            val = round(self.rng.uniform(-1.3, 1.3), 6) if value is None else value
         v = self.ctx.new_var(name, float(val))
         self.input_vars.append(v)
         return Val("lin", v)
@@ -322,6 +324,7 @@ class Session:
         self.obligations = 0
         self.discharged = 0
         self.syntactic = 0
+        self.by_identity = 0
         self.inconclusive: list[str] = []
         self.cex: list[dict] = []
 
@@ -351,6 +354,10 @@ class Session:
             self.syntactic += 1
             return "valid"
         extra = [t for t, _ in self.ctx.pc] if under_pc else []
+        if self.q.identity(goal):
+            self.discharged += 1
+            self.by_identity += 1
+            return "valid"
         r, model = self.q.check_sat(extra + [T.not_(goal)])
         if r == "unsat":
             self.discharged += 1
